@@ -38,6 +38,7 @@ type c13case struct {
 	Seq, Epoch, Frame, Lam uint32
 	Creator                idx.ValidatorID
 	Parents                []c13parent
+	StalePrefix            bool // the parents' IDs were assigned while their Lamport field held another value (IDs are opaque to the checkers)
 }
 
 const c13lim = uint64(1<<31 - 2)
@@ -116,7 +117,11 @@ func c13build(k *c13case) (dag.Event, dag.Events) {
 		p.SetLamport(idx.Lamport(ps.Lam))
 		p.SetEpoch(c13epoch)
 		p.SetFrame(1)
+		if k.StalePrefix {
+			p.SetLamport(idx.Lamport(ps.Lam + 7)) // bijective in Lam, so "same ID" still means "same (ID byte, Lamport)"
+		}
 		p.SetID([24]byte{ps.ID}) // identity is the ID byte: same byte = same event
+		p.SetLamport(idx.Lamport(ps.Lam))
 		// parents with one ID must be one event: normalise lamport into the id prefix consistently
 		parents = append(parents, p)
 		pids = append(pids, p.ID())
@@ -127,13 +132,23 @@ func c13build(k *c13case) (dag.Event, dag.Events) {
 }
 
 func runC13(c *ev.Ctx) {
-	c.Rule = "two generators: (1) the cross product of boundary values {0,1,2,3,2^31-3,2^31-2,2^31-1,2^32-1} for seq and Lamport, epochs {0,cur-1,cur,cur+1,2^31-2}, frames {0,1,2^31-3,2^31-2}, creators {validator, validator, stranger} and parent lists of length 0-3 drawn from 7 parent shapes (fully in thorough, a seeded 1/5 in quick); " +
-		"(2) valid events (random creator, seq, 0-3 other parents, consistent Lamport) with 0-2 single-field faults injected (boundary value in a field, duplicated parent adjacent or not, own-creator parent at index>0, seq=1 with an own-creator parent, missing self-parent, self-parent seq off by one, Lamport +-1, epoch +-1, stranger creator, parents reordered). Only accept/reject is compared with the predicate written from the statement. " +
+	c.Rule = "two generators: (1) the cross product of boundary values {0,1,2,3,2^31-3,2^31-2,2^31-1,2^32-1} for seq and Lamport, epochs {0,cur-1,cur,cur+1,2^31-2}, frames {0,1,2^31-3,2^31-2}, creators {validator, validator, stranger} and parent lists of length 0-3 drawn from 8 parent shapes (one with Lamport 2^32-1, so that max+1 wraps to 0) (fully in thorough, a seeded 1/5 in quick); " +
+		"(2) valid events (random creator, seq, 0-3 other parents, consistent Lamport) with 0-2 single-field faults injected (boundary value in a field, duplicated parent adjacent or not, own-creator parent at index>0, seq=1 with an own-creator parent, missing self-parent, self-parent seq off by one, Lamport +-1, epoch +-1, stranger creator, parents reordered). A third of the cases with parents is repeated with parent events whose IDs were assigned while their Lamport field held another value (the parents' Lamport is what the parent events say, not what their IDs embed). Only accept/reject is compared with the predicate written from the statement. " +
 		"non-trivial = distinct inputs that are rejected for exactly one reason, or accepted"
 	c.Assumptions = []string{"the parents handed to the parents check are the events named by the event's parent IDs (caller contract of Checkers.Validate)", "parents with equal IDs are the same event"}
 	vals := pos.EqualWeightValidators([]idx.ValidatorID{1, 2, 3}, 1)
 	ch := eventcheck.Checkers{Basiccheck: basiccheck.New(), Epochcheck: epochcheck.New(c13rdr{vals, c13epoch}), Parentscheck: parentscheck.New()}
+	var run1 func(k *c13case, src string)
 	run := func(k *c13case, src string) {
+		run1(k, src)
+		if len(k.Parents) > 0 && (k.Seq+k.Lam+uint32(len(k.Parents)))%3 == 0 {
+			k2 := *k
+			k2.StalePrefix = true
+			run1(&k2, src+", parent IDs assigned under another Lamport value")
+			c.Count("cases_with_parent_ids_not_carrying_their_lamport", 1)
+		}
+	}
+	run1 = func(k *c13case, src string) {
 		bad := c13oracle(k, vals)
 		e, parents := c13build(k)
 		var err error
@@ -164,7 +179,7 @@ func runC13(c *ev.Ctx) {
 	// ---- (1) cross product
 	bvals := []uint32{0, 1, 2, 3, 1<<31 - 3, 1<<31 - 2, 1<<31 - 1, 1<<32 - 1}
 	lams := []uint32{0, 1, 2, 3, 4, 1<<31 - 3, 1<<31 - 2, 1<<32 - 1}
-	pch := []c13parent{{1, 1, 1, 1}, {1, 2, 2, 2}, {2, 1, 1, 3}, {2, 2, 3, 4}, {3, 1<<31 - 4, 1<<31 - 4, 5}, {1, 1, 2, 6}, {9, 1, 1, 7}}
+	pch := []c13parent{{1, 1, 1, 1}, {1, 2, 2, 2}, {2, 1, 1, 3}, {2, 2, 3, 4}, {3, 1<<31 - 4, 1<<31 - 4, 5}, {1, 1, 2, 6}, {9, 1, 1, 7}, {3, 7, 1<<32 - 1, 8}}
 	var plists [][]int
 	plists = append(plists, nil)
 	for a := range pch {
